@@ -27,4 +27,14 @@ Expected(bytes, p, upper) ==
     SubSeq(Digits(bytes, upper), 1, IF p < 0 THEN 2 * Len(bytes) ELSE HexMin(p, 2 * Len(bytes)))
 
 HexOK(r) == r.out = Expected(Bytes(r.n, r.pat), r.prec, r.upper)
+
+(* Formatting into a sink of capacity r.cap that refuses (as a whole) any piece which does not fit:      *)
+(* the formatter reports success exactly when the sink never refused; success means the sink holds the   *)
+(* whole expected string; and when that string fits, no piece can have been refused.  How the output is  *)
+(* cut into pieces, and what the sink holds after a refusal, is not constrained.                         *)
+HexSinkOK(r) ==
+    LET e == Expected(Bytes(r.n, r.pat), r.prec, r.upper) IN
+    /\ r.ok = ~r.failed
+    /\ r.ok => r.out = e
+    /\ Len(e) <= r.cap => r.ok
 =============================================================================
